@@ -105,7 +105,7 @@ class G:
                 op = '='
         a = Assign(attr, op, rhs)
         if op in ('+=', '*=') and r.random() < 0.5:
-            a.sep = Lit(r.choice([',', ';', '|']))
+            a.sep = Lit(r.choice([',', ';', '|', ',', 'and', 'By']))
         if op in ('+=', '*=') and r.random() < 0.1:
             a.eolterm = True
             self.used_features.add('eolterm')
@@ -120,7 +120,7 @@ class G:
                 # nullable on its own -> guard with keyword so alternatives/bodies stay non-nullable
                 return Seq([self.newkw(), a])
             return a
-        if c < 0.525:
+        if c < 0.5 + getattr(self, 'psupref', 0.025):
             self.used_features.add('rule-ref-suppress')
             return Ref(r.choice(self.match), suppress=True)
         if c < 0.55:
@@ -130,7 +130,7 @@ class G:
         if c < 0.75:
             rp = Rep(self.seq(i, attrs, depth + 1, True), r.randint(0, 1))
             if r.random() < 0.4:
-                rp.sep = Lit(r.choice([',', ';']))
+                rp.sep = Lit(r.choice([',', ';', ',', 'and']))
             if r.random() < 0.1:
                 rp.eolterm = True
                 self.used_features.add('eolterm')
